@@ -1,5 +1,6 @@
 import Hive.Proofs.Ads
 import Hive.Proofs.AdsTrieExt
+import Hive.Model.AdsTrieLine
 /-!
 # C09 — authenticated map / set: contents, content-only root, faithful reopen
 
@@ -398,6 +399,23 @@ example :
       = .ext [true, true, true] (.inner (.leaf [true, true, true, false] [1]) (.leaf [true, true, true, true] [2])) ∧
     runOpsT [.put [true, true, true, false] [1], .put [true, true, true, true] [2], .del [true, true, true, false]]
       = .leaf [true, true, true, true] [2] := by
+  decide
+
+open SMT in
+/-- What is *not* history independent: the stored representation.  Inserting a key and deleting it
+again can leave a chain link as an inner node with an empty child where there was an extension bit
+before (smt only re-joins extensions with extensions and leaves).  The expansion — hence the root —
+is the same, the node store holds one record more; the correspondence run observes exactly this on
+the real library (`tcommit` shapes and record counts). -/
+theorem C09_trie_ext_shape_depends_on_history_witness :
+    let b : Path := [true, true, true, false]
+    let c : Path := [true, true, true, true]
+    let a : Path := [true, true, false, false]
+    let t₁ := runOpsT [.put b [1], .put c [2]]
+    let t₂ := runOpsT [.put b [1], .put c [2], .put a [3], .del a]
+    t₁ = .ext [true, true, true] (.inner (.leaf b [1]) (.leaf c [2])) ∧
+    t₂ = .ext [true, true] (.inner .nil (.inner (.leaf b [1]) (.leaf c [2]))) ∧
+    t₁.expand = t₂.expand ∧ t₁.nodes + 1 = t₂.nodes := by
   decide
 
 open SMT in
